@@ -59,6 +59,6 @@ def main():
                 print('\n'.join(l for l in r.stdout.splitlines() if 'rule ' in l)[:1500])
     print('problems:', bad)
 
-ALL_PROPS = ['C01', 'C02', 'C03', 'C04', 'C05', 'C14', 'C19']
+ALL_PROPS = ['C01', 'C02', 'C03', 'C04', 'C05', 'C14', 'C19', 'CDD']
 if __name__ == '__main__':
     main()
